@@ -401,6 +401,14 @@ fn check_tx_validity<C: ContentAddrStore>(
 ) -> Result<(), StateError> {
     let txhash = tx.hash_nosigs();
     let start = Instant::now();
+    // The fee has to cover the weight of the transaction, covenants included, before any covenant is
+    // run. The fee was only looked at when the next state is put together, after every covenant of the
+    // batch had been executed: a transaction that offers no fee at all could make every validator run
+    // covenants of any weight for nothing.
+    let min_fee = minimum_fee(tx, this.fee_multiplier);
+    if tx.fee < min_fee {
+        return Err(StateError::InsufficientFees(min_fee));
+    }
     let scripts = tx.covenants_as_map();
 
     let mut in_coins: FxHashMap<Denom, u128> = FxHashMap::default();
